@@ -93,12 +93,14 @@ class IdentityEliminationPass(ir.passes.InPlacePass):
 
         output_is_graph_output = output_value.is_graph_output()
 
-        # Case 3: Both node output is graph output and node input is graph input, initializer or
-        # another graph output (two outputs need two values with names of their own) - keep the node
+        # Case 3: Both node output is graph output and node input is graph input, initializer,
+        # another graph output (two outputs need two values with names of their own) or a value
+        # of an enclosing graph (an output has to be defined in the graph it belongs to) - keep the node
         if output_is_graph_output and (
             input_value.is_graph_input()
             or input_value.is_initializer()
             or input_value.is_graph_output()
+            or input_value.graph is not graph_like
         ):
             return False
 
